@@ -268,7 +268,7 @@ def oracle_call(case, cl, o, earlier_failures=0):
     if case["mode"] in ("failover", "default") and n >= 2:
         for k in range(m - 1):
             if urls[k + 1] == urls[k]:
-                if k == 0 and urls[0] == 0 and earlier_failures % n == n - 1:
+                if k == 0 and urls[0] == 0 and earlier_failures is not None and earlier_failures % n == n - 1:
                     return ("failover:first-retry-goes-back-to-urls[0]-that-just-failed",
                             "failover: attempt 0 failed on server 0 and the retry was sent to server 0 again "
                             "although %d servers are configured (the failover index, shared by all calls of "
@@ -398,6 +398,125 @@ def canon(c):
     return json.dumps(d, sort_keys=True)
 
 
+# --------------------------------------------------------------------------- concurrent bursts
+
+def burst_cases(ctx):
+    """Bursts of concurrently failing idempotent calls through one failover plugin (their
+    failures race inside getIndex), each followed by sequential probe calls.  How a burst
+    interleaved is unknown; C16_get_index_concurrent says the index is back in [0,n) once
+    the burst is over, so the probes must behave like the sequential model started from
+    SOME index in [0,n)."""
+    quick = ctx.tier == "quick"
+    cases = []
+    for n in (2, 3, 4):
+        probes = [call("", retry=n + 1),
+                  dict(call("", retry=n), health="D" + "U" * (n - 1)),
+                  dict(call("", retry=n), health="D" * (n - 1) + "U"),
+                  call("EO"),
+                  dict(call("", retry=n - 1), health="D" + "U" * (n - 1)),
+                  call("PEO"),
+                  dict(call("", retry=n + 2), health="DU" + "D" * (n - 2))]
+        for rep in range(3 if quick else 12):
+            cases.append({"id": len(cases) + 1, "kind": "burst", "n": n, "retry": 3, "idem": True, "mode": "failover",
+                          "goroutines": 32 if rep % 3 != 2 else 8, "iters": 200, "rounds": 8 if quick else 20,
+                          "min_ns": 0, "max_ns": 0, "calls": probes, "gen": "burst"})
+    return cases
+
+
+def derived_call(cl, o):
+    """attempt-indexed script of a probe: for health probes what the servers actually visited answered"""
+    if not cl.get("health"):
+        return cl
+    h = cl["health"]
+    d = {k: v for k, v in cl.items() if k != "health"}
+    d["outs"] = "".join("O" if 0 <= u < len(h) and h[u] == "U" else "E" for u in o["urls"])
+    return d
+
+
+def burst_model_line(c, calls, ix):
+    line = model_line(dict(c, kind="retry", calls=calls, reuse=False))
+    return "RI %d %s" % (ix, line[2:])
+
+
+def oracle_round(c, probes, calls, obs_round, ix):
+    out, seen = [], set()
+    failures = ix
+    n = c["n"]
+    for ci, (cl0, cl, o) in enumerate(zip(probes, calls, obs_round)):
+        r = oracle_call(c, cl, o, failures)
+        if failures is not None:
+            failures += len(o["urls"]) - (1 if o["res"].startswith("R") else 0)
+        h = cl0.get("health") or ""
+        rs = [r] if r is not None else []
+        if "U" in h and not o["res"].startswith("R"):
+            retry = eff_retry(c, cl0)
+            if retry >= n or (retry >= n - 1 and h.count("U") >= 2):
+                rs.append(("failover:healthy-server-never-tried",
+                           "failover: %d of %d servers are healthy (%s) and retry=%d, but the call failed with %s after "
+                           "trying servers %s" % (h.count("U"), n, h, retry, o["res"], o["urls"])))
+        for r in rs:
+            if r[0] not in seen:
+                seen.add(r[0])
+                out.append((r[0], "probe %d: %s" % (ci, r[1]), ci))
+    return out
+
+
+def run_bursts(ctx):
+    cases = burst_cases(ctx)
+    rc, obs, err = hv.run_harness("c16", cases, timeout=600)
+    byid = {o["id"]: o for o in obs}
+    if rc != 0 or len(byid) != len(cases):
+        first = next((c for c in cases if c["id"] not in byid), None)
+        ctx.report("harness-crash-burst", "harness process died (rc=%d) while running burst case %s: %s" % (rc, first, err[-400:]),
+                   {"case": first, "stderr": err[-2000:], "failing_input": True})
+        cases = [c for c in cases if c["id"] in byid]
+    lines, index = [], []
+    for c in cases:
+        for r, obs_round in enumerate(byid[c["id"]].get("rounds", [])):
+            calls = [derived_call(cl, o) for cl, o in zip(c["calls"], obs_round)]
+            for ix in range(c["n"]):
+                lines.append(burst_model_line(c, calls, ix))
+                index.append((c, r, ix, calls, obs_round))
+    model = hv.run_model("c16", lines) if lines else []
+    matched = {}
+    cands = {}
+    for (c, r, ix, calls, obs_round), ml in zip(index, model):
+        mm = ml.rpartition(" lit=")[0]
+        cands.setdefault((c["id"], r), []).append(mm)
+        if mm == project(dict(c, kind="retry"), {"calls": obs_round}):
+            matched[(c["id"], r)] = ix
+    rounds = agree = 0
+    unexplained = None
+    for c in cases:
+        ctx.count_case(canon(c), nontrivial=True)
+        ctx.bump("by_generator", "burst")
+        ctx.bump("by_kind", "burst")
+        for r, obs_round in enumerate(byid[c["id"]].get("rounds", [])):
+            rounds += 1
+            calls = [derived_call(cl, o) for cl, o in zip(c["calls"], obs_round)]
+            ix = matched.get((c["id"], r))
+            seen = project(dict(c, kind="retry"), {"calls": obs_round})
+            if ix is not None:
+                agree += 1
+                ctx.bump("burst_index_after_burst", "n=%d ix=%d" % (c["n"], ix))
+            fails = oracle_round(c, c["calls"], calls, obs_round, ix)
+            for key, why, ci in fails:
+                ctx.report(key, "after a burst of %dx%d concurrent failing calls, %s" % (c["goroutines"], c["iters"], why),
+                           {"case": {k: v for k, v in c.items() if k not in ("gen", "id")}, "round": r, "observed": seen,
+                            "model_for_each_start_index": cands.get((c["id"], r)), "failing_input": True,
+                            "note": "the burst is a race: replaying may need several rounds"})
+            if ix is None and not fails and unexplained is None:
+                unexplained = (c, r, seen)
+    ctx.note("burst_rounds", rounds)
+    ctx.note("burst_rounds_matching_the_model_from_some_index", agree)
+    if unexplained is not None and not any(v[0].startswith("failover:") for v in ctx.violations):
+        c, r, seen = unexplained
+        ctx.report("correspondence-burst", "after a burst of concurrent failures the probes do not behave like Model/Cluster.v "
+                   "started from any index in [0,n) (C16_get_index_concurrent not transferred)",
+                   {"case": {k: v for k, v in c.items() if k not in ("gen", "id")}, "round": r, "observed": seen,
+                    "model_for_each_start_index": cands.get((c["id"], r)), "failing_input": False})
+
+
 # --------------------------------------------------------------------------- run
 
 def run(ctx):
@@ -406,7 +525,8 @@ def run(ctx):
         "the back-off interval OnRetry returns is modelled (min*retried resp. min*(retried-len(urls)), clamped to max) and "
         "compared with what the real closure returns; the sleep itself is not observed (no verdict depends on a clock); "
         "int64 overflow of minInterval*retried is out of reach",
-        "calls through one plugin are sequential; the failover index is an atomic int64 far from overflow",
+        "sequential families: calls through one plugin are sequential; burst family: concurrent calls, atomic.AddInt64 / "
+        "StoreInt64 are the atomic steps of the getIndex LTS (sequential consistency); the index is far from int64 overflow",
         "Forking/Broadcast: the completion effect of a goroutine (atomic.AddInt64 + once.Do, or the slot write + once.Do) "
         "is one atomic step of the LTS; sync.Once / WaitGroup / channel close behave as documented",
         "completion order is forced by releasing the scripted handler per URL and waiting until the released goroutine "
@@ -520,6 +640,7 @@ def run(ctx):
     # the property oracle on every agreeing case too (independent of the model)
     for c, ob, r in agreeing_hits:
         report_oracle(c, ob, project(c, ob), project(c, ob), r)
+    run_bursts(ctx)
 
 
 def rng_pick(ctx, c):
@@ -536,6 +657,14 @@ def replay(ctx, path):
     if not obs:
         print("harness crashed:", err[-500:])
         return 1
+    if case["kind"] == "burst":
+        bad = []
+        for rnd, obs_round in enumerate(obs[0].get("rounds", [])):
+            calls = [derived_call(cl, o) for cl, o in zip(case["calls"], obs_round)]
+            bad += [(rnd,) + f for f in oracle_round(case, case["calls"], calls, obs_round, None)
+                    if f[0] != "failover:retry-on-same-server" or True]
+        print("property oracle (start index unknown):", bad[:3])
+        return 1 if bad else 0
     why = oracle(case, obs[0])
     print("property oracle:", why)
     return 1 if why else 0
